@@ -225,6 +225,19 @@ def _watch_indications(sim, q):
     return q
 
 
+class _EventQueue(collections.deque):
+    """The provider's own event deque; an empty `popleft` is one idle turn of its loop."""
+
+    def __init__(self, sim, items=()):
+        collections.deque.__init__(self, items)
+        self._sim = sim
+
+    def popleft(self):
+        if not self:
+            self._sim.idle_turn()
+        return collections.deque.popleft(self)
+
+
 class Sim(object):
     START_TIME = 1000.0
 
@@ -233,6 +246,7 @@ class Sim(object):
         self.role = role
         self.stopped_at = None
         self._last_log, self._stale = -1, 0
+        self._spin = 0
         self.stall_write = stall_write        # index of the write during which the peer pauses reading
         self.stall_seconds = stall_seconds
         self.write_fault = write_fault    # index of the first write on the transport that fails (None: never)
@@ -259,6 +273,7 @@ class Sim(object):
     # -- scheduling ------------------------------------------------------------------------
     def point(self, what):
         self.points += 1
+        self._spin = 0
         # nothing at all happened (no byte read or written, no indication, no scripted step released) for a long
         # stretch of scheduling points: the loop is spinning without getting anywhere
         n = len(self.log)
@@ -272,6 +287,14 @@ class Sim(object):
         if self.points > self.budget:
             raise Hang('step budget of %d scheduling points exhausted (livelock) at %s, state %s'
                        % (self.budget, what, self.state()))
+
+    def idle_turn(self):
+        """The event loop found no event. A healthy loop has polled the socket, the user's queue or the clock on
+        the way (each a scheduling point, which resets this counter); one that polled nothing is spinning."""
+        self._spin += 1
+        if self._spin > 1000:
+            raise Hang('livelock: %d turns of the event loop in a row without polling the transport, the user queue '
+                       'or the timer (state %s)' % (self._spin, self.state()))
 
     def state(self):
         if not self.provider:
@@ -430,6 +453,7 @@ class Sim(object):
         sock = self.sock if self.role == 'acceptor' else None
         p = SimProvider(self.store_in_file, self.get_file_cb, sock, self.max_pdu)
         p.from_service_user = _UserQueue(self)
+        p.event = _EventQueue(self, p.event)
         _watch_indications(self, p.to_service_user)
         if self.accepted_contexts is not None:
             p.accepted_contexts = self.accepted_contexts
